@@ -117,15 +117,23 @@ def evaluate(ctx, expected, cases, recs):
     return good, skipped, inconcl
 
 
-def seq_schedules(ctx):
-    behs = vlib.tlc_behaviours(ctx, "UdpFallbackSeq", "UdpFallbackSeq_gen.cfg")
-    if len(behs) < 20:
-        raise vlib.Infra("sequence generator exported only %d schedules" % len(behs))
-    return behs
+def seq_schedules(ctx, T):
+    """environment schedules of UdpFallbackSeq.tla: (a) all start/cancel/late-answer schedules of 3 truncated exchanges,
+    (b) all schedules of 3 consecutive exchanges of any TC-ness with a stale duplicate of a finished exchange's UDP reply,
+    (c) sampled orders of the burst shape: 4 overlapping exchanges -> 4 pooled connections, server closes all, 5th exchange"""
+    a = vlib.tlc_behaviours(ctx, "UdpFallbackSeq", "UdpFallbackSeq_gen.cfg")
+    b = vlib.tlc_behaviours(ctx, "UdpFallbackSeq", "UdpFallbackSeq_gen_dup.cfg")
+    b = [x for x in b if any(s[0] == "dup" for s in x["steps"])]
+    c = vlib.tlc_behaviours(ctx, "UdpFallbackSeq", "UdpFallbackSeq_gen_burst.cfg", simulate=200 if T else 40, depth=100)
+    if len(a) < 20 or len(b) < 10 or len(c) < 5:
+        raise vlib.Infra("sequence generators exported only %d / %d / %d schedules" % (len(a), len(b), len(c)))
+    return a + b + c
 
 
 def seq_sig(b, what):
-    shape = "".join({"start": "s", "cancel": "c", "answer": "a"}[s[0]] + str(s[1]) for s in b["steps"])
+    shape = "".join({"start": "s", "cancel": "c", "answer": "a", "dup": "d", "sclose": "x"}[s[0]] + str(s[1]) for s in b["steps"])
+    if len(shape) > 40:
+        shape = "burst%d" % len(b["result"])
     return "seq:%s:%s" % (what, shape)
 
 
@@ -138,7 +146,7 @@ def evaluate_seqs(ctx, behs, jobs, recs):
         b = behs[jobs[r["id"]]["beh"]]
         for xr in r.get("results") or []:
             exp = b["result"][xr["x"] - 1]
-            ok = xr["kind"] == exp and (xr["kind"] != "tcp" or (xr["for"] == xr["x"] and xr["idok"]))
+            ok = xr["kind"] == exp and (xr["kind"] not in ("tcp", "udp") or (xr["for"] == xr["x"] and xr["idok"]))
             if not ok:
                 what = "result=%s-for-%s" % (xr["kind"], "own" if xr.get("for") == xr["x"] else "other")
                 ctx.violation(seq_sig(b, what),
@@ -185,7 +193,8 @@ def replay(ctx):
     binary = vlib.go_build(ctx, "drv_udpfb")
     if "seq" in d:
         behs = [d["beh"]]
-        seqs = [{"id": i, "n": 3, "steps": d["beh"]["steps"], "beh": 0} for i in range(8)]
+        seqs = [{"id": i, "n": len(d["beh"]["result"]), "tc": d["beh"].get("tc", []), "steps": d["beh"]["steps"], "beh": 0}
+                for i in range(8)]
         recs, _ = vlib.run_driver(ctx, binary, stdin_obj={"cases": [], "seqs": seqs, "workers": 4}, timeout=600)
         ctx.cov["evaluations"] = len(recs)
         evaluate_seqs(ctx, behs, seqs, recs)
@@ -213,6 +222,10 @@ def run(ctx):
         "TC => the caller gets the outcome of the TCP exchange: its reply or its error, never the truncated reply as a success",
         "several exchanges on one upstream run one after the other (unique question each); a cancelled one is cancelled by the "
         "harness after the TCP server has read its query; the TCP server answers late and in order per connection",
+        "burst runs: 4 overlapping truncated exchanges (4 pooled TCP connections), the TCP server half-closes every idle "
+        "connection and the next exchange starts only after the server has seen the client close each of them",
+        "duplicate runs: a second copy of a finished exchange's UDP reply (its wire id) is sent right before the reply to a "
+        "later exchange of different TC-ness",
         "a UDP reply may be lost/dropped and the query resent (C02 concerns the loss, not C17)",
         "errors caused by the harness context ending (4 s) are retried and then counted as inconclusive, never as a verdict",
     ]
@@ -223,22 +236,27 @@ def run(ctx):
         if nv["violated"] != "C17Inv":
             raise vlib.Infra("non-vacuity (%s): expected C17Inv to fail, got %r" % (b, nv["violated"]))
     ctx.cov["non_vacuity"] = ("C17Inv violated by TLC when the decision tests another bit / always / never falls back / a failed "
-                              "TCP retry returns the truncated reply; C17SeqInv violated when a cancelled exchange idles its connection")
+                              "TCP retry returns the truncated reply; C17SeqInv violated when a cancelled exchange idles its connection, when a "
+                              "noticed close leaves the connection pooled, when a stale UDP duplicate is taken for the current exchange")
     vlib.tlc_mc(ctx, "UdpFallbackSeq", "UdpFallbackSeq_design.cfg", workers=1,
-                label="design, 3 exchanges on one upstream: cancel after the TCP query, late in-order answers, connection pool")
-    nv = vlib.run_tlc(ctx, "UdpFallbackSeq", "UdpFallbackSeq_pinned_idle.cfg", expect_violation=True, workers=1)
-    if nv["violated"] != "C17SeqInv":
-        raise vlib.Infra("non-vacuity (IdleOnCancel): expected C17SeqInv to fail, got %r" % nv["violated"])
+                label="design, 3 consecutive exchanges on one upstream: TC or not, cancel after the TCP query, late in-order "
+                      "answers, stale UDP duplicates, connection pool")
+    vlib.tlc_mc(ctx, "UdpFallbackSeq", "UdpFallbackSeq_design_overlap.cfg", workers=1,
+                label="design, 3 overlapping truncated exchanges, server closes pooled connections, bounded retry")
+    for dev in ("idle", "forget", "dup"):
+        nv = vlib.run_tlc(ctx, "UdpFallbackSeq", "UdpFallbackSeq_pinned_%s.cfg" % dev, expect_violation=True, workers=1)
+        if nv["violated"] != "C17SeqInv":
+            raise vlib.Infra("non-vacuity (%s): expected C17SeqInv to fail, got %r" % (dev, nv["violated"]))
     exp = expectations(ctx)
 
     cases = build_cases(ctx, rng, T)
     log("running %d exchanges (%d distinct flag words)" % (len(cases), len({c["word"] for c in cases})))
     binary = vlib.go_build(ctx, "drv_udpfb")
-    behs = seq_schedules(ctx)
+    behs = seq_schedules(ctx, T)
     seqs = []
     for rep in range(20 if T else 3):
         for bi, b in enumerate(behs):
-            seqs.append({"id": len(seqs), "n": 3, "steps": b["steps"], "beh": bi})
+            seqs.append({"id": len(seqs), "n": len(b["result"]), "tc": b["tc"], "steps": b["steps"], "beh": bi})
     log("and %d multi-exchange runs (%d schedules of UdpFallbackSeq.tla)" % (len(seqs), len(behs)))
     recs, _ = vlib.run_driver(ctx, binary, stdin_obj={"cases": cases, "seqs": seqs, "workers": 16}, timeout=1500)
     if len(recs) != len(cases) + len(seqs):
@@ -257,8 +275,19 @@ def run(ctx):
         e = next(e for e in s1 if e["ev"] == "Result" and e["kind"] == "tcp")
         e["for"] = e["x"] % 3 + 1
         s2 = [e for e in copy.deepcopy(sb) if e["ev"] != "TcpReply"]
-        vlib.assert_rejects(ctx, "UdpFallbackSeq_Trace", "UdpFallbackSeq_Trace.cfg", [s1, s2],
-                            "Result.for changed to another exchange; TcpReply events removed")
+        # burst: the last exchange fails although every close had been noticed
+        s3 = copy.deepcopy(next(json.loads(k) for k in skeys if '"CClosed"' in k))
+        last = [e for e in s3 if e["ev"] == "Result"][-1]
+        s3 = [e for e in s3 if not (e["ev"] in ("TcpAccept", "TcpQuery", "TcpReply") and s3.index(e) > max(
+            i for i, f in enumerate(s3) if f["ev"] == "CClosed"))]
+        last["kind"], last["for"] = "err", 0
+        # dup: a non-truncated exchange is reported with the TCP reply
+        s4 = copy.deepcopy(next(json.loads(k) for k in skeys if '"UdpDup"' in k and '"udp"' in k))
+        e4 = next(e for e in s4 if e["ev"] == "Result" and e["kind"] == "udp")
+        e4["kind"] = "tcp"
+        vlib.assert_rejects(ctx, "UdpFallbackSeq_Trace", "UdpFallbackSeq_Trace.cfg", [s1, s2, s3, s4],
+                            "Result.for changed to another exchange; TcpReply events removed; exchange after noticed closes "
+                            "ends in an error without a TCP attempt; non-TC exchange reported with a TCP reply")
         base = next(r["events"] for r in good if r["kind"] == "tcp")
         b1 = copy.deepcopy(base)
         for e in b1:
